@@ -255,6 +255,69 @@ def accepted(ctx):
     return out
 
 
+def lit_type(node):
+    if isinstance(node, ast.Constant):
+        v = node.value
+        if isinstance(v, bool):
+            return 'bool'
+        if isinstance(v, int):
+            return 'int'
+        if isinstance(v, float):
+            return 'float'
+        if isinstance(v, str):
+            return 'str'
+        return None
+    if ast.unparse(node) in ('np.inf', '-np.inf'):
+        return 'float'
+    return None
+
+
+def api_default_types(ctx):
+    """(section, key) -> type of the API default the CLI option replaces."""
+    out = {}
+
+    def from_sig(fn, sec, skip=()):
+        a = fn.args
+        pos = a.posonlyargs + a.args
+        for arg, d in zip(pos[len(pos) - len(a.defaults):], a.defaults):
+            t = lit_type(d)
+            if t and arg.arg not in skip:
+                out[(sec, arg.arg)] = t
+        for arg, d in zip(a.kwonlyargs, a.kw_defaults):
+            t = lit_type(d) if d is not None else None
+            if t:
+                out[(sec, arg.arg)] = t
+
+    def from_pops(fn, sec, names=None):
+        for c in ast.walk(fn):
+            if isinstance(c, ast.Call) and ast.unparse(c.func) == \
+                    'kwargs.pop' and len(c.args) == 2 and isinstance(
+                        c.args[0], ast.Constant):
+                t = lit_type(c.args[1])
+                if t and (names is None or c.args[0].value in names):
+                    out[(sec, c.args[0].value)] = t
+    sur = ctx.repo.mod('emg3d/surveys.py')
+    sim = ctx.repo.mod('emg3d/simulations.py')
+    sol = ctx.repo.mod('emg3d/solver.py')
+    from_sig(sur.method('Survey', 'add_noise'), 'noise_opts',
+             skip=('min_amplitude', 'add_to'))
+    from_pops(sur.method('Survey', 'add_noise'), 'noise_opts')
+    from_sig(sur.func('random_noise'), 'noise_opts')
+    from_pops(sim.method('Simulation', 'compute'), 'noise_opts',
+              {'add_noise'})
+    from_sig(sur.method('Survey', 'select'), 'data')
+    from_sig(sim.method('Simulation', '__init__'), 'simulation')
+    from_pops(sim.method('Simulation', '__init__'), 'simulation',
+              {'layered', 'receiver_interpolation'})
+    mg = sol.cls('MGParameters')
+    for st in mg.body:
+        if isinstance(st, ast.AnnAssign) and isinstance(
+                st.annotation, ast.Name) and st.annotation.id in (
+                    'int', 'float', 'bool', 'str'):
+            out[('solver_opts', st.target.id)] = st.annotation.id
+    return out
+
+
 def run(ctx):
     ctx.explanation = (
         'Key sets are extracted from three sources - the documented '
@@ -396,3 +459,40 @@ def run(ctx):
                   ctx.where(pm, fn), sample={'section': s, 'key': k,
                                              'documented': t, 'parsed': got})
     ctx.floor('C18.Q6.types', 30)
+    # Q6b: the extraction agrees with the type of the API default the option
+    # replaces (a string 'False' is truthy where the API expects a bool)
+    api_types = api_default_types(ctx)
+    nq = 0
+    for (s_, k), want in sorted(api_types.items()):
+        if k not in W.keys.get(s_, set()):
+            continue
+        got = W.types.get((s_, k))
+        nq += 1
+        ctx.check('C18.Q6.api_types', f'[{s_}] {k}: API expects {want}',
+                  got == want, f'the API default of `{k}` is a {want}; the '
+                  f'parser hands over a {got} (e.g. the string "False" is '
+                  'truthy)', ctx.where(pm, fn),
+                  sample={'section': s_, 'key': k, 'api': want,
+                          'parsed': got})
+    ctx.need(nq >= 12, f'only {nq} options with a typed API default')
+    # Q4b: "not given on the terminal" must be distinguishable: options with
+    # a configuration twin need default=None in argparse
+    twins = {'nproc', 'layered', 'path', 'survey', 'model', 'output', 'save',
+             'load', 'cache'}
+    for c in ast.walk(mf):
+        if isinstance(c, ast.Call) and isinstance(c.func, ast.Attribute) and \
+                c.func.attr == 'add_argument':
+            longs = [a.value for a in c.args if isinstance(a, ast.Constant)
+                     and a.value.startswith('--')]
+            if not longs:
+                continue
+            d = longs[0][2:].replace('-', '_')
+            if d in twins:
+                kws = {k.arg: ast.unparse(k.value) for k in c.keywords}
+                ctx.check('C18.Q4.precedence', f'argparse --{d} default',
+                          kws.get('default', 'None') == 'None',
+                          f'--{d} has default {kws.get("default")}: the '
+                          'parser cannot tell "not given" from a value, so '
+                          'the configuration file is never consulted',
+                          ctx.where(mm, c))
+    ctx.floor('C18.Q4.precedence', 4 + 9)
